@@ -40,12 +40,13 @@ class Runaway(BaseException):
 
 
 MAX_EVENTS = 4000
-MAX_SECONDS = 30.0
+MAX_SECONDS = 8.0
 
 
 class Rec:
     def __init__(self):
         self.start = 0
+        self.fd = False   # Jacobians by finite differences: the probe calls are collapsed (see on_store)
         self.events = []
         self.pids = {}
         self.coords = []
@@ -59,11 +60,16 @@ class Rec:
         v = np.asarray(x).real.ravel()
         if np.isnan(v).any():
             return 0
-        k = tuple(float(t) for t in v)
+        k = self._key(v)
         if k not in self.pids:
             self.pids[k] = len(self.pids) + 1
-            self.coords.append(k)
+            self.coords.append(tuple(float(t) for t in v))
         return self.pids[k]
+
+    @staticmethod
+    def _key(v):
+        # the database hashes the bytes of the array: -0.0 and 0.0 are two keys
+        return tuple((float(t), math.copysign(1.0, float(t))) for t in v)
 
     def pid_near(self, x, tol=1e-9):
         """pid of a generated sample: the recorded point it coincides with up to the round-off of a
@@ -71,9 +77,10 @@ class Rec:
         v = np.asarray(x).real.ravel()
         if np.isnan(v).any():
             return 0
-        k = tuple(float(t) for t in v)
+        k = self._key(v)
         if k in self.pids:
             return self.pids[k]
+        k = tuple(float(t) for t in v)
         for i, c in enumerate(self.coords):
             if len(c) == len(k) and all(abs(a - b) <= tol * (1.0 + abs(a)) for a, b in zip(c, k)):
                 return i + 1
@@ -92,7 +99,8 @@ class Rec:
 
         def wrapped(x):
             p = rec.pid(x)
-            rec.pending = []  # one original call per request
+            if not rec.fd:
+                rec.pending = []  # one original call per request
             try:
                 y = body(np.asarray(x))
             except BaseException:
@@ -121,8 +129,18 @@ class Rec:
     def on_store(self, x):
         p = self.pid(x)
         names = self.names(x)
-        extra = names == self.names_at.get(p, []) and bool(names)
+        old = self.names_at.get(p, [])
+        extra = names == old and bool(names)
+        new = [n for n in names if n not in old]
         self.names_at[p] = names
+        if self.fd and self.pending and new and new[0][1] == "jac":
+            # the gradient approximator called the original function at probe points (excepted by the
+            # property) and nothing else was logged meanwhile: one "Jacobian computed at p" event instead
+            first = self.events[self.pending[0]]
+            del self.events[self.pending[0]:]
+            self.events.append(dict(ev="orig", fn=new[0][0], kind="jac", p=p, a=p, out="ok", fd=True,
+                                    cur=first["cur"], len=first["len"]))
+            self.pending = []
         if not extra:
             # the request that computed this value: its orig events get the database key
             for i in self.pending:
@@ -235,7 +253,7 @@ def execute(rec: Rec, lib, kind: str, settings: dict, *, grad: bool, nx: int = 3
         raise Runaway
 
     old = signal.signal(signal.SIGALRM, on_alarm)
-    signal.setitimer(signal.ITIMER_REAL, MAX_SECONDS)
+    signal.setitimer(signal.ITIMER_REAL, MAX_SECONDS, 2.0)   # re-armed: a firing inside a finalizer is swallowed
     try:
         res = lib.execute(problem, **settings)
     except BaseException as ex:  # noqa: BLE001
@@ -272,6 +290,7 @@ def execute(rec: Rec, lib, kind: str, settings: dict, *, grad: bool, nx: int = 3
     user_raise = exc is not None and any(e["ev"] == "orig" and e["out"] == "raise" for e in rec.events[start:])
     rec.events.append(dict(ev="end", cause=cause, result=bool(has), xopt=int(xopt), crashed=exc is not None,
                            userRaise=bool(user_raise), exc=type(exc).__name__ if exc is not None else "",
+                           excmsg=repr(exc)[:60].encode("ascii", "replace").decode() if exc is not None else "",
                            nni=len(ni) + (0 if ours_ni else 1), nsl=len(st) + (0 if ours_st else 1),
                            **rec.snap()))
     rec.pending = []
